@@ -24,6 +24,7 @@ def run_property(prop, tier, seed, only=None, verbose=False):
     mod, contracts = load_contracts(prop)
     if only:
         contracts = [c for c in contracts if only in c.key()]
+        report.PARTIAL = True
     timeout_ms = 20000 if tier == 'quick' else 90000
     cresults = []
     obligations = []
